@@ -302,6 +302,8 @@ def node_src(node, fresh=False):
             s = name
         elif node['how'] == 'class':
             s = 'Ref(%s)' % name
+        elif node['how'] == 'var':
+            s = 'Ref(%s)' % node['var']         # a module-level instance, see live_prototypes()
         else:
             s = 'Ref(%s(%s))' % (name, ', '.join('%s=%s' % (a, value_src(b)) for a, b in node['kw'].items()))
     elif k == 'refsel':
@@ -438,6 +440,25 @@ def collect_tables(P, acc):
     return acc
 
 
+def live_prototypes(P):
+    """(statements before the classes, statements after them) for Ref(<module-level instance>) fields: the instance
+    is created before the class that uses it and CHANGED after all classes are declared"""
+    pre, post = [], []
+    for q in subpackets(P):
+        for _, node in q['fields']:
+            if node['k'] == 'ref' and node['how'] == 'var':
+                sub = node['pkt']
+                pre.append((q['name'], '%s = %s(%s)' % (node['var'], sub['name'], ', '.join('%s=%s' % (a, value_src(b)) for a, b in node['kw'].items()))))
+                for fname, n2 in sub['fields']:
+                    if n2['k'] == 'int':
+                        post.append('%s.%s = 99' % (node['var'], fname))
+                    elif n2['k'] == 'seq':
+                        post.append('%s.%s.append(77)' % (node['var'], fname))
+                    elif n2['k'] == 'data':
+                        post.append('%s.%s = b"changed"' % (node['var'], fname))
+    return pre, post
+
+
 def module_src(P, local=False):
     """source of a module defining P and everything it references; local=True puts the classes inside a
     function (their prototypes then cannot be pickled and bisturi falls back to deepcopy)"""
@@ -447,6 +468,11 @@ def module_src(P, local=False):
         # a table goes right before the first class that uses it (the classes it instantiates come earlier)
         at = next(i for i, part in enumerate(parts) if n in part)
         parts.insert(at, '%s = %s\n' % (n, src))
+    pre, post = live_prototypes(P)
+    for user, stmt in pre:
+        at = next(i for i, part in enumerate(parts) if part.startswith('class %s(' % user))
+        parts.insert(at, stmt + '\n')
+    parts.extend(p + '\n' for p in post)
     if P.get('shared'):
         parts.insert(0, 'SHARED = %r\n' % (dict(P.get('opts') or {}),))
     if not local:
